@@ -201,13 +201,16 @@ def r_cache(E):
                                 "(attribute chain) the stored value is computed from; the object returned by an "
                                 "lru_cache'd function is not mutated in place by its callers")
     _self_test()
+    res.instances += 2        # the two embedded positive examples, re-matched on every run
+    scanned = 0
     cached = _cached_functions(pm)
+    res.instances += len(cached)
     for mod, (rel, tree, src) in sorted(pm.modules.items()):
         tag = _tag(rel)
         for fn in [n for n in ast.walk(tree) if isinstance(n, ast.FunctionDef)]:
             cls = getattr(fn, "_parent", None)
             q = f"{cls.name}.{fn.name}" if isinstance(cls, ast.ClassDef) else fn.name
-            res.instances += 1
+            scanned += 1
             for D, K, V, node in _memo_sites(fn):
                 # only tables that outlive one evaluation of V: a dict, not a per-call accumulator keyed by the loop
                 # variable itself (`d[up] = f(up)` for every up is a plain table, covered by its key)
@@ -228,6 +231,8 @@ def r_cache(E):
                     f"{q} mutates in place ({what}) the object returned by {cf}(), which is decorated with a cache: every "
                     f"later call with the same arguments — and every value already built on it — sees the mutated object",
                     rel, node.lineno, q, {"clauses": [tag]}))
-    res.breakdown = {"cached_functions": sorted(cached)}
-    res.floor = 300        # functions scanned
+    res.breakdown = {"cached_functions": sorted(cached), "functions_scanned": scanned}
+    if scanned < 300:
+        raise AnalysisError(f"R-CACHE scanned only {scanned} functions")
+    res.floor = 2
     return res
